@@ -8,6 +8,7 @@
   (hex flags; typed tokens, see `parseVal`).
 -/
 import DecModel.Ops
+import DecModel.Scan
 
 namespace Dec
 
@@ -124,12 +125,74 @@ def judgeWith (e : Expect) (o : Obs) : Verdict :=
 def accepts (tinyAfter : Bool) (o : Obs) : Verdict :=
   judgeWith (expect o.op o.mode o.args tinyAfter) o
 
+/-! ### correspondence of the code-shaped scanner (`DecModel.Scan`)
+
+`accepts` judges an observation against the *specification*.  `Scan.scanCP` is a second, code-shaped model
+of the character scanner of `bid128_from_string` (the theorems about it — it never panics, it agrees with the
+strict grammar — are in `DecProofs/Properties/C04Scan.lean`).  Its tie to the code is checked here: for every
+observed `convert_from_decimal_character` the scanner's outcome must predict the returned bits exactly, also
+in the zone where the specification is silent.  A disagreement is reported as `corr`, not `viol`: it says the
+model no longer describes the code, not that the property fails on this input. -/
+
+/-- UTF-8 bytes to code points; `none` for an ill-formed sequence (the harness only sends `&str`) -/
+def decodeUtf8 : Bytes → Option (List Nat)
+  | [] => some []
+  | b0 :: t =>
+    if b0 < 0x80 then (decodeUtf8 t).map (b0 :: ·)
+    else if b0 < 0xC0 then none
+    else if b0 < 0xE0 then
+      match t with
+      | b1 :: t1 => (decodeUtf8 t1).map (((b0 % 32) * 64 + b1 % 64) :: ·)
+      | _ => none
+    else if b0 < 0xF0 then
+      match t with
+      | b1 :: b2 :: t2 => (decodeUtf8 t2).map (((b0 % 16) * 4096 + (b1 % 64) * 64 + b2 % 64) :: ·)
+      | _ => none
+    else
+      match t with
+      | b1 :: b2 :: b3 :: t3 =>
+        (decodeUtf8 t3).map (((b0 % 8) * 262144 + (b1 % 64) * 4096 + (b2 % 64) * 64 + b3 % 64) :: ·)
+      | _ => none
+
+/-- what the code-shaped scanner predicts for a text (`none`: no prediction — more than 100 digits with a
+non-zero digit beyond the 100th, which the numeric phase outside the scanner model handles) -/
+def scanExpect (mode : Mode) (t : Bytes) : Option Expect :=
+  match decodeUtf8 t with
+  | none => none
+  | some cps =>
+    match scanCP cps with
+    | .nan neg => some (exactly [.d (encode (.nan neg false 0))] 0)
+    | .snan neg => some (exactly [.d (encode (.nan neg true 0))] 0)
+    | .inf neg => some (exactly [.d (encode (.inf neg))] 0)
+    | .zero neg e => some (exactly [.d (encode (zeroAt neg e))] 0)
+    | .number l false => some (exactD (parseLiteralSpec mode l))
+    | .number _ true => none
+    | .panic _ => some (.pred "a panic (the scanner model reaches a panic site)" (fun _ => false) 0)
+
+/-- `some why` when the observation is a text conversion and the code-shaped scanner predicts another outcome -/
+def scanDisagrees (o : Obs) : Option String :=
+  match o.op, o.args with
+  | "convert_from_decimal_character", [.s t] =>
+    match scanExpect o.mode t with
+    | none => none
+    | some e =>
+      match o.out, e with
+      | none, .pred _ _ _ => none
+      | _, _ =>
+        match judgeWith e o with
+        | .viol c d => some (c ++ " " ++ d)
+        | _ => none
+  | _, _ => none
+
 def judgeLine (tinyAfter : Bool) (line : String) : String :=
   match parseObs line with
   | none => "bad unparsable"
   | some o =>
     match accepts tinyAfter o with
-    | .ok c => "ok " ++ c
+    | .ok c =>
+      match scanDisagrees o with
+      | some why => "corr scanner-model " ++ why
+      | none => "ok " ++ c
     | .viol c d => "viol " ++ c ++ " " ++ d
     | .bad w => "bad " ++ w
 
